@@ -324,6 +324,58 @@ fn same_command(ctx: &Context, a: &SmtCommand, b: &SmtCommand, envs: &[Env]) -> 
     }
 }
 
+/// A stream that turns reading at its end for the fifth time into an I/O error: a reader that never
+/// finds the end of a command (and would poll the exhausted stream forever) then returns, and the
+/// case is judged instead of being killed by the watchdog.
+struct EofGuard {
+    inner: std::io::Cursor<Vec<u8>>,
+    eofs: u32,
+}
+
+impl EofGuard {
+    fn new(text: &str) -> Self {
+        EofGuard { inner: std::io::Cursor::new(text.as_bytes().to_vec()), eofs: 0 }
+    }
+}
+
+impl std::io::Read for EofGuard {
+    fn read(&mut self, buf: &mut [u8]) -> std::io::Result<usize> {
+        self.inner.read(buf)
+    }
+}
+
+impl std::io::BufRead for EofGuard {
+    fn fill_buf(&mut self) -> std::io::Result<&[u8]> {
+        let at_end = self.inner.position() as usize >= self.inner.get_ref().len();
+        if at_end {
+            self.eofs += 1;
+            if self.eofs > 4 {
+                return Err(std::io::Error::other("the reader keeps polling the stream after its end"));
+            }
+        }
+        self.inner.fill_buf()
+    }
+    fn consume(&mut self, amt: usize) {
+        self.inner.consume(amt)
+    }
+}
+
+/// names of the pinned constants of the end-to-end part: plain, or generated from the broad alphabet
+/// (the solver echoes the name in its `get-value` reply, quoted where necessary)
+fn e2e_name(t: &mut Tape, base: &str, k: u32) -> String {
+    if t.chance(96) {
+        let n = crate::gen_expr::random_name(t, &['|', '\\'], &k.to_string());
+        // the backend z3 reads unquoted symbols such as `-0` as numerals (SMT-LIB makes them symbols),
+        // and control characters are not portable: such names stay with the in-process parts
+        let first = n.chars().next().unwrap_or('a');
+        let portable = (smtref::needs_quoting(&n) || first.is_ascii_alphabetic() || first == '_') && !n.chars().any(|c| c.is_control());
+        if name_ok(&n) && portable {
+            return n;
+        }
+    }
+    format!("{}{}", base, k)
+}
+
 impl C14 {
     fn roundtrip_command(
         &self,
@@ -338,7 +390,7 @@ impl C14 {
             .map_err(|p| Failure::new(format!("smt-read/write-panicked/{}", kind), p.msg.clone()))?;
         let parsed = if via_read_command {
             let mut st2 = st.clone();
-            let mut input = std::io::Cursor::new(text.as_bytes().to_vec());
+            let mut input = EofGuard::new(&text);
             match guard(|| read_command(&mut input, ctx, &mut st2)) {
                 Err(p) => {
                     return Err(Failure::new(
@@ -406,7 +458,7 @@ impl C14 {
             if arr {
                 let iw = t.range(1, 3);
                 let dw = if t.chance(64) { 1 } else { t.range(2, 9) };
-                let sym = ctx.array_symbol(&format!("m{}", k), iw, dw);
+                let sym = ctx.array_symbol(&e2e_name(t, "m", k), iw, dw);
                 let mut a = Arr::constant(iw, &Bv::new(dw, t.bits(dw)));
                 for _ in 0..t.below(4) {
                     a = a.store(&Bv::new(iw, t.bits(iw)), &Bv::new(dw, t.bits(dw)));
@@ -419,7 +471,7 @@ impl C14 {
                     2 => 4 * t.range(1, 20),
                     _ => t.range(9, 130),
                 };
-                let sym = ctx.bv_symbol(&format!("c{}", k), w);
+                let sym = ctx.bv_symbol(&e2e_name(t, "c", k), w);
                 pinned.push((sym, Val::Bv(Bv::new(w, t.bits(w)))));
             }
         }
@@ -464,6 +516,9 @@ impl C14 {
             Ok(Err(m)) => {
                 if m.starts_with("START:") {
                     return Err(Failure::new("harness/solver-start", m));
+                }
+                if m.contains("refsolver internal") || m.contains("refsolver backend disagrees") {
+                    return Err(Failure::new("harness/reference-solver", m));
                 }
                 let kind = if m.contains("failed to parse") { "response-rejected" } else { "error" };
                 return Err(fail(format!("smt-read/get_value/{}", kind), m));
@@ -554,7 +609,7 @@ impl Prop for C14 {
         match sub {
             // ---------------- (i) writer output
             0 => {
-                let kind = t.below(6);
+                let kind = t.below(7);
                 let mut case = gen_case(&mut t, &gen_cfg(tier), 4);
                 let roots = case.roots.clone();
                 let syms = case.symbols.clone();
@@ -673,9 +728,81 @@ impl Prop for C14 {
                         let ts: Vec<ExprRef> = bool_roots[..n].to_vec();
                         self.roundtrip_command(ctx, &st, &SmtCommand::CheckSatAssuming(ts), &envs, via_read)?
                     }
-                    _ => {
+                    5 => {
                         rec.label("i:GetValue");
                         self.roundtrip_command(ctx, &st, &SmtCommand::GetValue(roots[0]), &envs, via_read)?
+                    }
+                    _ => {
+                        // a whole script in one stream, read back command by command with read_command
+                        // (which keeps its own symbol table): nothing may be lost, merged or reordered
+                        rec.label("i:script");
+                        let mut script: Vec<SmtCommand> = vec![SmtCommand::SetLogic(Logic::All)];
+                        let plain = all_plain_commands();
+                        for s in syms.iter() {
+                            script.push(SmtCommand::DeclareConst(*s));
+                            if t.chance(40) {
+                                script.push(plain[t.below(plain.len() as u32) as usize].clone());
+                            }
+                        }
+                        for b in bool_roots.iter().take(2) {
+                            script.push(SmtCommand::Assert(*b));
+                        }
+                        if t.flag() {
+                            script.push(SmtCommand::CheckSatAssuming(bool_roots.iter().copied().take(t.below(3) as usize).collect()));
+                        } else {
+                            script.push(SmtCommand::CheckSat);
+                        }
+                        script.push(SmtCommand::GetValue(roots[0]));
+                        script.push(SmtCommand::Exit);
+                        let mut text = String::new();
+                        for c in script.iter() {
+                            let one = cmd_text(ctx, c)
+                                .map_err(|p| Failure::new(format!("smt-read/write-panicked/{}", cmd_kind(c)), p.msg.clone()))?;
+                            text.push_str(one.trim_end());
+                            text.push('\n');
+                        }
+                        let mut st2 = St::default();
+                        let mut input = EofGuard::new(&text);
+                        let mut back: Vec<SmtCommand> = vec![];
+                        loop {
+                            if back.len() > script.len() + 2 {
+                                break;
+                            }
+                            match guard(|| read_command(&mut input, ctx, &mut st2)) {
+                                Err(p) => {
+                                    return Err(Failure::new(
+                                        format!("smt-read/read_command/script/{}", p.class()),
+                                        format!("after {} commands: panic {}:{} {}\n{}", back.len(), p.file, p.line, p.msg, text),
+                                    ));
+                                }
+                                Ok(Err(e)) => {
+                                    return Err(Failure::new("smt-read/read_command/script/io-error", format!("{}\n{}", e, text)));
+                                }
+                                Ok(Ok(None)) => break,
+                                Ok(Ok(Some(c))) => back.push(c),
+                            }
+                        }
+                        if back.len() != script.len() {
+                            return Err(Failure::new(
+                                "smt-read/read_command/script/command-count",
+                                format!(
+                                    "{} commands written, {} read back: {:?}\n{}",
+                                    script.len(),
+                                    back.len(),
+                                    back.iter().map(cmd_kind).collect::<Vec<_>>(),
+                                    text
+                                ),
+                            ));
+                        }
+                        for (k, (a, b)) in script.iter().zip(back.iter()).enumerate() {
+                            if let Err(m) = same_command(ctx, a, b, &envs) {
+                                return Err(Failure::new(
+                                    format!("smt-read/read_command/script/{}/{}", cmd_kind(a), if cmd_kind(a) != cmd_kind(b) { "wrong-kind" } else { "not-equivalent" }),
+                                    format!("command {}: {}\n{}", k, m, text),
+                                ));
+                            }
+                        }
+                        text
                     }
                 };
                 if roots.iter().any(|r| !crate::props::c05::coercion_sites(ctx, *r).is_empty()) {
